@@ -443,6 +443,108 @@ class Impl:
     def leasemut(self, c):
         return self.lease_enc(c, True)
 
+    def check_decoded_lease(self, c, dec, mutable, expire, what):
+        """The property on a lease value read back from a record: (a) owner, expiration, nodeid as encoded;
+        (b) the real secrets are recognised, other secrets are not; (c) the stored secret bytes are the
+        cleartext (v1) / its single blake2b hash (v2)."""
+        r, cs = unhx(c["r"]), unhx(c["c"])
+        other = bytes(b ^ 0x5a for b in r)
+        ser = c["ser"]
+        inner = dec._lease_info if ser == "v2" else dec
+        want_r, want_c = (blake(r), blake(cs)) if ser == "v2" else (r, cs)
+        problems = []
+        if dec.owner_num != c["o"]:
+            problems.append("owner_num %r" % (dec.owner_num,))
+        if dec.get_expiration_time() != expire:
+            problems.append("expiration_time %r != %r" % (dec.get_expiration_time(), expire))
+        if dec.nodeid != (unhx(c["n"]) if mutable else None):
+            problems.append("nodeid %r" % (dec.nodeid,))
+        if not dec.is_renew_secret(r):
+            problems.append("the real renew secret is not recognised")
+        if not dec.is_cancel_secret(cs):
+            problems.append("the real cancel secret is not recognised")
+        if dec.is_renew_secret(other) or (cs != r and dec.is_renew_secret(cs)):
+            problems.append("a wrong renew secret is recognised")
+        if dec.is_cancel_secret(other) or (cs != r and dec.is_cancel_secret(r)):
+            problems.append("a wrong cancel secret is recognised")
+        if (inner.renew_secret, inner.cancel_secret) != (want_r, want_c):
+            problems.append("stored secret bytes differ from %s" % ("blake2b(secret)" if ser == "v2" else "the cleartext secret"))
+        if problems:
+            self.viol("%s: the lease record does not decode back to the lease that was encoded: %s" % (what, "; ".join(problems)),
+                      c, "lease-roundtrip-after-renew:%s:%s" % (ser, "mut" if mutable else "imm"))
+        return not problems
+
+    def leasecycle(self, c):
+        """every lease value the code itself produces is round-tripped: (fresh [→ renew]) → encode, then
+        decode → renew(e) → encode, repeated; the property is evaluated after every decode"""
+        mutable = c["fmt"] == "mut"
+        ser = self.serializer(c, mutable)
+        li = self.mk_lease(dict(c, e=c["e0"] if c.get("pre") else c["e"]))
+        if c.get("pre"):
+            li = li.renew(c["e"])        # LeaseInfo.renew on a fresh cleartext lease, then encode
+        guard = (0 <= c["o"] < 2 ** 32 and all(0 <= e < 2 ** 32 for e in [c["e"]] + c["renews"])
+                 and len(unhx(c["r"])) == 32 and len(unhx(c["c"])) == 32)
+        outs = []
+        try:
+            data = ser.serialize(li)
+        except struct.error:
+            return "err"
+        outs.append(hx(data))
+        expire = c["e"]
+        for step, e in enumerate(c["renews"]):
+            dec = ser.unserialize(data)
+            if guard:
+                self.check_decoded_lease(c, dec, mutable, expire, "after %d renewals" % step)
+            ren = dec.renew(e)
+            try:
+                data = ser.serialize(ren)
+            except struct.error:
+                outs.append("err")
+                return "ok " + ";".join(outs)
+            outs.append(hx(data))
+            expire = e
+        if guard:
+            self.check_decoded_lease(c, ser.unserialize(data), mutable, expire, "after %d renewals" % len(c["renews"]))
+        return "ok " + ";".join(outs)
+
+    def leasecontainer(self, c):
+        """the same through the real containers: add_lease, renew_lease (several times, with the cleartext
+        secret), get_leases; output = the lease record bytes on disk"""
+        mutable = c["fmt"] == "mut"
+        v = c["v"]
+        cc = dict(c, ser="v%d" % v)
+        li = self.mk_lease(c)
+        fn = self.tmpfile()
+        if mutable:
+            schema = [s_ for s_ in self.mutable_schema.ALL_SCHEMAS if s_.version == v][0]
+            sf = self.smut.MutableShareFile(fn, schema=schema)
+            sf.create(unhx(c["n"]), b"w" * 32)
+            sf.add_lease(10 ** 6, li)
+        else:
+            sf = self.simm.ShareFile(fn, max_size=len(unhx(c["data"])), create=True,
+                                     schema=self.immutable_schema.schema_from_version(v))
+            sf.write_share_data(0, unhx(c["data"]))
+            sf.add_lease(li)
+        expire = c["e"]
+        sig = "lease-roundtrip-after-renew:v%d:%s" % (v, "mut" if mutable else "imm")
+        for step, e in enumerate(c["renews"]):
+            try:
+                sf.renew_lease(unhx(c["r"]), e)
+            except IndexError as ex:
+                self.viol("renew_lease #%d with the real renew secret fails on a %s v%d container: %s"
+                          % (step + 1, c["fmt"], v, str(ex)[:80]), c, sig)
+                return "EXC:IndexError at renewal %d" % (step + 1)
+            expire = max(expire, e)
+            sf = (self.smut.MutableShareFile if mutable else self.simm.ShareFile)(fn)   # reopen, as the server does
+            leases = list(sf.get_leases())
+            if len(leases) != 1:
+                self.viol("container holds %d leases after renewing the only one" % len(leases), c, sig)
+                return "EXC:lease count %d" % len(leases)
+            self.check_decoded_lease(cc, leases[0], mutable, expire, "container, after %d renew_lease calls" % (step + 1))
+        raw = open(fn, "rb").read()
+        rec = raw[100:192] if mutable else raw[12 + len(unhx(c["data"])):]
+        return "ok " + hx(rec)
+
     def lease_dec(self, c, mutable):
         data = unhx(c["x"])
         ser = self.serializer(c, mutable)
@@ -600,6 +702,18 @@ def line_of(c, mode="s"):
         if c.get("ser") == "v2":   # the v2 schema stores blake2b digests of the secrets
             r, cc = hx(blake(unhx(r))), hx(blake(unhx(cc)))
         return "%s %d %s %s %d %s" % (k, c["o"], r, cc, c["e"], "none" if c["n"] is None else c["n"])
+    if k == "leasecycle":
+        r, cc = c["r"], c["c"]
+        if c.get("ser") == "v2":
+            r, cc = hx(blake(unhx(r))), hx(blake(unhx(cc)))
+        return "leasecycle %s %d %s %s %d %s %s" % (c["fmt"], c["o"], r, cc, c["e"], "none" if c["n"] is None else c["n"],
+                                                    ",".join("%d" % e for e in c["renews"]))
+    if k == "leasecontainer":
+        r, cc = c["r"], c["c"]
+        if c["v"] == 2:
+            r, cc = hx(blake(unhx(r))), hx(blake(unhx(cc)))
+        return "%s %d %s %s %d %s" % ("leasemut" if c["fmt"] == "mut" else "leaseimm", c["o"], r, cc,
+                                      max([c["e"]] + c["renews"]), c["n"])
     if k in ("unleaseimm", "unleasemut"):
         return "%s %s" % (k, c["x"])
     if k == "immhdr":
@@ -639,6 +753,14 @@ CORPUS = [
     {"k": "uebunpack", "x": hx(b"k:-5:XY,:0:,")},
     {"k": "uebunpack", "x": hx(b"codec_name:3:crs,size:2:12,")},
     {"k": "uebunpack", "x": hx(b"size:2:12,codec_name:3:crs,")},
+    {"k": "leasecycle", "fmt": "imm", "ser": "v2", "o": 1, "r": "11" * 32, "c": "22" * 32, "e": 1000, "n": "33" * 20,
+     "renews": [2000, 3000]},
+    {"k": "leasecycle", "fmt": "mut", "ser": "v2", "o": 1, "r": "11" * 32, "c": "22" * 32, "e": 1000, "n": "33" * 20,
+     "renews": [2000], "pre": True, "e0": 5},
+    {"k": "leasecontainer", "fmt": "imm", "v": 2, "o": 1, "r": "11" * 32, "c": "22" * 32, "e": 1000, "n": "33" * 20,
+     "renews": [2000, 3000], "data": "6162"},
+    {"k": "leasecontainer", "fmt": "mut", "v": 2, "o": 1, "r": "11" * 32, "c": "22" * 32, "e": 1000, "n": "33" * 20,
+     "renews": [2000, 3000], "data": "-"},
     {"k": "immhdr", "v": 2, "m": 2 ** 32 + 5},
     {"k": "immhdr", "v": 1, "m": 2 ** 32 - 1, "real": True},
 ]
@@ -806,6 +928,38 @@ def gen_ueb(rng, n):
     return cs
 
 
+def gen_lease_cycles(rng, n):
+    """renewal chains on lease records (pure serializers) and through the real containers"""
+    cs = []
+    for i in range(n):
+        r_, c_ = rand_bytes(rng, 32), rand_bytes(rng, 32)
+        if rng.random() < 0.1:
+            c_ = r_
+        nid = rand_bytes(rng, 20)
+        o = rng.choice([1, 1, 2, 2 ** 32 - 1, rng.randrange(1, 2 ** 32)])
+        e = rng.choice([0, 1, 2 ** 31, rng.randrange(2 ** 32 - 10), rng.randrange(10 ** 9, 2 * 10 ** 9)])
+        k = rng.choice([1, 1, 2, 3])
+        renews = [rng.choice([e + j + 1, rng.randrange(2 ** 32), 2 ** 32 - 1, 0]) for j in range(k)]
+        if rng.random() < 0.06:
+            renews[rng.randrange(k)] = rng.choice([2 ** 32, -1])       # the encoder refuses it
+        fmt = ["imm", "mut"][i % 2]
+        ser = ["v1", "v2", "v2"][i % 3]
+        c = {"k": "leasecycle", "fmt": fmt, "ser": ser, "o": o, "r": hx(r_), "c": hx(c_), "e": e,
+             "n": hx(nid), "renews": renews}
+        if rng.random() < 0.3:
+            c["pre"] = True
+            c["e0"] = rng.randrange(2 ** 32)
+        cs.append(c)
+        if i % 3 == 0:
+            up = sorted(rng.sample(range(e + 1, e + 1000), rng.choice([2, 2, 3])))
+            if rng.random() < 0.3:
+                up.insert(1, e)      # not later than the current expiry: renew_lease leaves the record alone
+            if up[-1] < 2 ** 32:
+                cs.append({"k": "leasecontainer", "fmt": fmt, "v": rng.choice([1, 2, 2]), "o": o, "r": hx(r_), "c": hx(c_),
+                           "e": e, "n": hx(nid), "renews": up, "data": hx(rand_bytes(rng, rng.choice([0, 1, 17])))})
+    return cs
+
+
 FORMATS = [">L", ">Q", ">H", ">B", ">LLL", ">L32s32sL", ">LL32s32s20s", ">32s20s32sQQ", ">BQ32s16s", ">H3sB", ">2L", ">0s", ">LI"]
 
 
@@ -930,6 +1084,7 @@ def run(ctx):
             cases += gen_ueb(rng, ctx.budget(150, 6000))
             cases += gen_struct(rng, ctx.budget(200, 8000))
             cases += gen_records(rng, ctx.budget(100, 3000))
+            cases += gen_lease_cycles(rng, ctx.budget(150, 4000))
         impl_outs = evaluate(ctx, impl, cases)
         model_s = ctx.model([line_of(c, "s") for c in cases])
         ctx.compare("encoder/decoder output (value or exception kind), real code vs Lean model", cases, impl_outs, model_s)
